@@ -680,5 +680,93 @@ func sendTimeout(r *vk.Run) {
 			}
 		}(i)
 	}
+	// slow but live: a backpressured subscriber that receives steadily (one event every 1.5 s) while five writers are
+	// in flight. No single send waits anywhere near five seconds, so every Set must succeed and every value must arrive:
+	// "with backpressure nothing is dropped while the subscriber keeps receiving".
+	if r.Mine(0) {
+		wg.Add(1)
+		go func() {
+			defer wg.Done()
+			slowButLive(r)
+		}()
+	}
 	wg.Wait()
+}
+
+func slowButLive(r *vk.Run) {
+	v := resource.NewValue(resource.WithClock(clk{}), resource.WithInitialValue(&tat{DefaultString: "init"}))
+	ctx, cancel := context.WithCancel(context.Background())
+	defer cancel()
+	ch := v.Pull(ctx, resource.WithBackpressure(true), resource.WithUpdatesOnly(true))
+	const writers = 5
+	var mu sync.Mutex
+	var got []string
+	var recvAt []time.Time
+	start := time.Now()
+	recvDone := make(chan struct{})
+	go func() {
+		defer close(recvDone)
+		for len(got) < writers {
+			time.Sleep(1500 * time.Millisecond)
+			select {
+			case e, ok := <-ch:
+				if !ok {
+					return
+				}
+				mu.Lock()
+				got = append(got, e.Value.(*tat).DefaultString)
+				recvAt = append(recvAt, time.Now())
+				mu.Unlock()
+			case <-time.After(20 * time.Second):
+				return
+			}
+		}
+	}()
+	errs := make([]error, writers)
+	var wg sync.WaitGroup
+	for w := 0; w < writers; w++ {
+		w := w
+		wg.Add(1)
+		go func() {
+			defer wg.Done()
+			time.Sleep(time.Duration(w) * 40 * time.Millisecond) // stagger: simultaneous commits abort each other
+			for try := 0; try < 50; try++ {
+				_, err := v.Set(&tat{DefaultString: fmt.Sprintf("slow%d", w)})
+				if err != nil && strings.Contains(err.Error(), "concurrent update") {
+					time.Sleep(5 * time.Millisecond)
+					continue
+				}
+				errs[w] = err
+				return
+			}
+		}()
+	}
+	wg.Wait()
+	select {
+	case <-recvDone:
+	case <-time.After(60 * time.Second):
+	}
+	mu.Lock()
+	defer mu.Unlock()
+	// the trial only counts if the harness itself was not starved: no gap between receives above 3.5 s
+	prev := start
+	for _, t := range recvAt {
+		if t.Sub(prev) > 3500*time.Millisecond {
+			r.Count("slow-but-live-trials-skipped(harness starved)", 1)
+			return
+		}
+		prev = t
+	}
+	r.Eval(1)
+	r.Count("slow-but-live-trials", 1)
+	r.Distinct(fmt.Sprintf("slow-live:%d", len(got)))
+	for w, e := range errs {
+		if e != nil {
+			r.Violation("C09/dropped-with-backpressure/value/slow-but-live", fmt.Sprintf("writer %d of %d got %q although the subscriber received one event every 1.5 s (received %v)", w, writers, e, got), map[string]any{"writers": writers})
+			return
+		}
+	}
+	if len(got) != writers {
+		r.Violation("C09/dropped-with-backpressure/value/slow-but-live", fmt.Sprintf("%d writers succeeded but the steadily receiving subscriber got %v", writers, got), map[string]any{"writers": writers})
+	}
 }
